@@ -765,6 +765,16 @@ func (sc *Scope) lvalue(e Expr) (string, types.Type) {
 					return fr.fv[i], f.Type().Underlying().(*types.Pointer).Elem()
 				}
 			}
+			// an addressable local variable
+			for _, b := range fr.fn.Blocks {
+				for _, in := range b.Instrs {
+					if d, ok := in.(*ssa.DebugRef); ok && d.IsAddr {
+						if id, ok := d.Expr.(*ast.Ident); ok && id.Name == e.Name {
+							return sc.valueOf(fr, d.X), d.X.Type().Underlying().(*types.Pointer).Elem()
+						}
+					}
+				}
+			}
 		}
 		// package-level variable
 		if sc.pkg != nil {
